@@ -42,7 +42,7 @@ def summary(v, depth=0):
     return 'instance:%s{%s}' % (type(v).__name__, ', '.join('%s=%s' % (k, summary(x, depth + 1)) for k, x in sorted(d.items())))
 
 
-def observe(src, timeout=5, filename='<prog>'):
+def observe(src, timeout=5, filename='<prog>', optimize=-1):
     """→ dict(out=str, ending=str, globals={name: summary})"""
     ns = {'__name__': '__main__'}
     buf = io.StringIO()
@@ -51,7 +51,7 @@ def observe(src, timeout=5, filename='<prog>'):
     signal.alarm(timeout)
     try:
         try:
-            code = compile(src, filename, 'exec')
+            code = compile(src, filename, 'exec', optimize=optimize)
         except SyntaxError as e:
             return {'out': '', 'ending': 'compile:' + type(e).__name__, 'globals': {}}
         with contextlib.redirect_stdout(buf), contextlib.redirect_stderr(io.StringIO()):
